@@ -108,7 +108,7 @@ impl Motif for ProtMotif {
             if mono == b'X' {
                 Ok(Array1::from_elem(Self::MONO_CT, 1.0 / Self::MONO_CT as f32))
             } else {
-                let idx = Self::LK[mono as usize] as usize;
+                let idx = Self::lookup(mono)?;
                 let mut v = Array1::zeros(Self::MONO_CT);
                 v[idx] += 1.0;
                 Ok(v)
